@@ -8,7 +8,7 @@ BOUNDS = {"stored_data": "any length (symbolic); streamed verification loops bou
           "damage": "content file replaced by an ARBITRARY byte string F of any length (subsumes bit flips, extension, "
                     "another entry's bytes, empty file), truncated at any length, removed, or replaced by a symlink to a file holding F",
           "reads": "<= 3 user reads with symbolic buffer sizes before check() (quick: 2 reads, verification loops bounded to 2 data reads)",
-          "integrity": "single hash of each of the five algorithms",
+          "integrity": "single hash of each of the five algorithms", "destination": "absent, or (copies) an existing file of arbitrary content and length",
           "outside": "more than 3 reads per file; hash collisions (ideal-hash assumption)"}
 
 DAMAGE = ["none", "replace", "truncate", "remove", "symlink"]
@@ -36,7 +36,7 @@ def damage_content(ctx, scn, sri, D, how):
         scn.fs_symlink(ROOT + "/elsewhere", cpath)
 
 
-def checked(ctx, algo, damage, retrieval, api, nreads=3):
+def checked(ctx, algo, damage, retrieval, api, nreads=3, dest_exists=False):
     scn = ctx.new_scn(api=api)
     if nreads < 3:
         scn.env.short_read_budget = 1
@@ -95,6 +95,11 @@ def checked(ctx, algo, damage, retrieval, api, nreads=3):
     # extractions
     op = retrieval
     dest = ROOT + "/out"
+    if dest_exists:
+        # the destination already holds an arbitrary file (any length): copies must replace it completely
+        G = scn.blob("G")
+        scn.fs_write(dest, scn.whole(G))
+        tag += ":dest-exists"
     out = scn.extract(op, dest, sri=sri) if by_hash else scn.extract(op, dest, key="k")
     if not expect_no_panic(ctx, out, tag, what):
         return
@@ -129,6 +134,9 @@ def tasks(tier, flavours):
                 for algo in algos:
                     out.append(dict(module="C01", family="checked", flavour=fl,
                                     params=dict(algo=algo, damage=damage, retrieval=retrieval, api=api, nreads=2 if tier == "quick" else 3)))
+        for retrieval in ("copy", "copy_hash"):
+            out.append(dict(module="C01", family="checked", flavour=fl,
+                            params=dict(algo=None, damage="none", retrieval=retrieval, api=api, nreads=2 if tier == "quick" else 3, dest_exists=True)))
         if fl != "sync" and tier != "quick":
             for retrieval in ("read", "stream", "copy", "hard_link"):
                 out.append(dict(module="C01", family="checked", flavour=fl, params=dict(algo=None, damage="replace", retrieval=retrieval, api="sync")))
